@@ -37,7 +37,9 @@ JudgeTmatmul(ev) ==
        ELSE \A o \in 1..Len(ev.outs) :
               LET blk == ev.outs[o].out.blk IN
               \* TriangularProduct(A, B, M, K, N, lt, rt, body, cx) with the promise established, plus the frame (guards)
-              IF blk = exp THEN TRUE
+              \* (opsame = 0: the call changed one of its operands -- a write outside the result, tag "operand")
+              IF blk = exp /\ ev.outs[o].out.opsame = 1 THEN TRUE
+              ELSE IF blk = exp THEN RejectTag(l, ev.case, ev.outs[o].cfg, "operand")
               ELSE LET tag == Deviation(blk, exp, cx) IN
                    IF tag = "" THEN Reject(l, ev.case, ev.outs[o].cfg) ELSE RejectTag(l, ev.case, ev.outs[o].cfg, tag)
 
